@@ -15,6 +15,11 @@ CLAIMS = {
   note="Trusted: Lean kernel; axioms propext, Quot.sound (Classical.choice where core lemmas use it); the Go built-in map behind `data` and maps.Keys (modelled as an arbitrary permutation, supplied by the implementation as a witness and checked to be a permutation); element conversion on store (assign) is C04's; NaN keys are excluded by the property; the nil-map front end (Value.Get/Len/Range/Delete on a nil map) is exercised by the script sweep only.",
   technique="Lean 4 proof (invariant + refinement to finite map + trace semantics of range under mutation, for every compaction order) + model/implementation correspondence incl. internal key list + native Go map oracle",
   ref="7/C10"),
+ "C15": dict(
+  text="Machine-checked (Lean 4 kernel) for every number of packages and every import relation: the loader's ordering loop (model Goat.Load.order, transcribed from loadImports) returns each discovered package exactly once with nothing a package imports at or after it (order_sound), succeeds on every acyclic graph with fuel = number of packages and never runs out of fuel (order_complete, order_never_out_of_fuel), succeeds if and only if the import relation is acyclic and otherwise reports an import cycle and nothing else (order_ok_iff_acyclic, cycle_is_error, cycle_no_rank incl. self-imports), and always takes the first eligible package of the sorted list (pick_first). The model (discovery worklist + ordering) is tied to the real loader by comparing its package order with VerifLoadOrder on generated in-memory trees (all graphs on <= 3 nodes, random graphs up to 12 packages with cycles); marker lines printed by every package's top-level code and init functions are the search oracle for once-only / imports-first / file selection (_test.go, //go:build incl. after a header comment, vendor/ and shortened paths, conflicting package clauses).",
+  note="Trusted: Lean kernel; axioms propext, Quot.sound, Classical.choice; the discovery worklist is modelled executably and checked by correspondence only (no theorem about reachability); file selection (fs.Glob, go/build/constraint, package-clause conflict) is exercised by the oracle, not proved; that packages are compiled and run in list order is checked by the marker oracle.",
+  technique="Lean 4 proof (induction over the ordering loop; acyclicity as a rank function; completeness via minimal-rank element) + model/implementation correspondence on generated file trees + marker-line oracle",
+  ref="7/C15"),
  "C05": dict(
   text="Machine-checked (Lean 4 kernel) for every expression of any size and nesting: goatlang's Pratt parser, with the binding-power table regenerated from symbol.go on this run, reads the text that Go's five-level grammar prints for a tree (with any redundant parentheses) back as exactly that tree (theorems groups_as_go, groups_as_go_ctx; table facts table_ops/table_ok/table_iso/table_order by kernel evaluation on the regenerated table; &^ by andnot_equiv). The hand-written parser model is tied to the real parser by an exhaustive + random tree-for-tree correspondence, and go/parser plus native Go evaluation search for a failing input.",
   note="Trusted: Lean kernel; axioms propext, Quot.sound, Classical.choice only; goatx table extractor; the parser model covers names, integer literals, the 18 binary and 3 prefix operators and parentheses (calls, indexing, selectors, composite literals are not in the model; they bind tighter than every operator and are exercised only by the correspondence run through the real parser); text/scanner tokenisation is trusted; values are checked by search (native Go int32/bool evaluation), not proved here (C04 carries the arithmetic).",
